@@ -82,6 +82,10 @@ def check_uniquified(ctx, n, e_before, before, tag):
         names = [d.name for d in l.definitions if d.name is not None]
         if len(names) != len(set(names)):
             return "duplicate-definition-name", "library %r has duplicate definition names after %s" % (l.name, tag)
+        idents = [d["EDIF.identifier"].lower() for d in l.definitions if "EDIF.identifier" in d]
+        if len(idents) != len(set(idents)):
+            dup = next(v for v in idents if idents.count(v) > 1)
+            return "duplicate-definition-identifier", "library %r has two definitions with EDIF.identifier %r after %s" % (l.name, dup, tag)
     return None
 
 
@@ -89,6 +93,16 @@ def run_case(ctx, i, rng):
     profile = "any" if i % 3 == 0 else "flatten"
     n = gen_ir.generate(rng, profile=profile, share=0.7, ndefs=rng.randint(3, 10), max_children=rng.choice([3, 4, 5]))
     # "any" may produce children without pins etc. but all children have references
+    with_ids = (i % 4 == 1)
+    if with_ids:
+        # like a netlist that was parsed from EDIF or exported once: definitions (and some instances) carry EDIF identifiers
+        for l in n.libraries:
+            for d_ in l.definitions:
+                if d_.name:
+                    d_["EDIF.identifier"] = d_.name
+                for c_ in d_.children:
+                    if c_.name and rng.random() < 0.5:
+                        c_["EDIF.identifier"] = c_.name
     e0 = Elab(n, max_occ=2500)
     if e0.truncated:
         ctx.count("discarded_too_large")
@@ -137,6 +151,31 @@ def run_case(ctx, i, rng):
     if d is not None:
         ctx.violation("not-idempotent:%s" % d[0][0], "second uniquify changed fact %s" % (d[0][0],))
         return
+    # a later edit shares a definition again; uniquify once more in the same process: fresh names are still required
+    hier_defs = [p[-1].reference for p in Elab(n, max_occ=2500).hier_occ if p]
+    if hier_defs:
+        dshare = rng.choice(hier_defs)
+        host = n.top_instance.reference
+        try:
+            host.create_child("again_%d" % i, reference=dshare)
+        except Exception:  # noqa: BLE001
+            dshare = None
+        if dshare is not None:
+            e1 = Elab(n, max_occ=2500)
+            if not e1.truncated:
+                before1 = describe(e1, e1.index_path)
+                ref_before1 = {e1.index_path(p): p[-1].reference for p in e1.occ}
+                check_uniquified._orig_lib = {id(d): d.library for l in n.libraries for d in l.definitions}
+                try:
+                    uniquify(n)
+                except Exception as ex:  # noqa: BLE001
+                    ctx.violation("second-uniquify-after-edit-raised:%s" % type(ex).__name__, "%r at %s on %s" % (ex, probes.innermost_frame(ex), st))
+                    return
+                ctx.count("uniquified_again_after_edit")
+                r = check_uniquified(ctx, n, ref_before1, before1, "uniquify after re-sharing a definition")
+                if r:
+                    ctx.violation("after-edit:" + r[0], "%s | shape=%s" % (r[1], st))
+                    return
     ctx.fingerprint((st, sorted(len(c) for c in before[2])), shared >= 1 and depth >= 2)
     ctx.count("shared_nonleaf_occurrences", shared)
     if i < 3:
